@@ -19,16 +19,16 @@ type CfgOpts struct {
 	Layout     bool // random comments / blank lines / multi-byte text
 	Simple     bool // only literals and plain references (C19, JSON-expressible)
 	NoDynamic  bool
-	HalfTyped  int // percent chance that an attribute value is a half-typed fragment
+	HalfTyped  int  // percent chance that an attribute value is a half-typed fragment
 	Typed      bool // only type-correct expressions (no deliberate mismatches, for-expressions only under iterable types)
 	RefHeavy   bool // prefer references and nested expression forms over literals
 }
 
 type cfgWriter struct {
-	g   G
-	o   CfgOpts
-	sb  strings.Builder
-	nl  string
+	g  G
+	o  CfgOpts
+	sb strings.Builder
+	nl string
 }
 
 // Config renders a configuration for the given root body schema.
